@@ -237,6 +237,10 @@ impl SimAsyncSink {
             shutdown_called: Arc::new(AtomicBool::new(false)),
         }
     }
+    /// Asynchronous face of an existing simulated sink (same device, same fault plan and counters).
+    pub fn over(ctx: &Ctx, gate: &Gate, sink: crate::io::SimSink, pending_rate: u64) -> Self {
+        SimAsyncSink { inner: sink, gate: gate.clone(), ctx: ctx.clone(), pending: None, pending_rate, shutdown_called: Arc::new(AtomicBool::new(false)) }
+    }
     fn maybe_pending(&mut self, cx: &mut Context<'_>) -> bool {
         if let Some(op) = &mut self.pending {
             if op.poll_op(cx).is_pending() {
